@@ -10,8 +10,9 @@ import (
 // Claimed: the accounting kernel in loss.go (datagramReceived / packetSent / sendLimit / maxSendSize /
 // validateClientAddress) and the packet writer's datagram limit (packetWriter.reset(lim) ... finish*), glued
 // together the way Conn.maybeSend glues them (sendLimit -> reset(maxSendSize()) -> start/append/finish ->
-// packetSent(sent.size)). NOT claimed: Conn.maybeSend itself, in particular its Initial-datagram padding loop
-// (`for len(buf) < paddedInitialDatagramSize`), which pads outside the packet writer (needs TLS handshake state).
+// packetSent(sent.size)). Conn.handleDatagram and Conn.maybeSend themselves (including the Initial-datagram padding
+// loop `for len(buf) < paddedInitialDatagramSize`, which pads outside the packet writer) are executed by
+// VerifC27_conn in zz_verif_c27b_test.go (known finding C27-initial-padding-overdraft).
 //
 // Shapes: (I) VerifC27_step, VerifC27_datagram from an arbitrary ledger state; (B) VerifC27_history from init().
 //
